@@ -62,6 +62,7 @@ def default_config(**kw):
         'style': {},                 # ns -> 'func' | 'catchall' | 'class'
         'global_catchall': False,    # handlers registered under '*' ns
         'global_events': [],         # events registered under '*' ns only
+        'global_class': False,       # class-based namespace registered for '*'
         'coroutines': True,          # async drive: coroutine handlers
         'connect_script': {},        # ns -> list of behaviours
         'returns': {},               # token -> handler return value
@@ -191,6 +192,8 @@ class Runner:
             def g_ev(ns, sid, *args, _ev=gev):
                 return runner._invoke('event', ns, _ev, sid, args, 'global')
             d.on(gev, g_ev, '*', co)
+        if cfg.get('global_class'):
+            self.sio.register_namespace(self._mk_global_class())
         if cfg.get('global_catchall'):
             def g_connect(ns, sid, environ, auth=None):
                 return runner._invoke('connect', ns, 'connect', sid,
@@ -270,6 +273,37 @@ class Runner:
                 'event', ns, ev, sid, args, 'class'))(ev))
         cls = type('VNamespace', (base,), body)
         return cls(ns)
+
+    def _mk_global_class(self):
+        """Class-based namespace registered for '*': its methods get the
+        namespace prepended."""
+        import socketio
+        runner = self
+        is_async = self.d.is_async
+        base = socketio.AsyncNamespace if is_async else socketio.Namespace
+        co = self.cfg.get('coroutines', True) and is_async
+        body = {}
+
+        def add(name, fn):
+            h = D.wrap_handler(fn, is_async, co)
+            if co:
+                async def m(self_, *a):
+                    return await h(*a)
+            else:
+                def m(self_, *a):
+                    return h(*a)
+            body[name] = m
+        add('on_connect', lambda ns, sid, environ, auth=None:
+            runner._invoke('connect', ns, 'connect', sid,
+                           [auth, env_label(environ)], 'global_class'))
+        add('on_disconnect', lambda ns, sid, reason: runner._invoke(
+            'disconnect', ns, 'disconnect', sid, [reason], 'global_class'))
+        for ev in CLASS_EVENTS:
+            add('on_' + ev, (lambda ev: lambda ns, sid, *args:
+                             runner._invoke('event', ns, ev, sid, args,
+                                            'global_class'))(ev))
+        cls = type('VGlobalNamespace', (base,), body)
+        return cls('*')
 
     # ------------------------------------------------------------ helpers
     def sid_of(self, ref):
